@@ -14,6 +14,21 @@ struct Case {
     reparse: bool,
 }
 
+/// a text sink with room for a few bytes only
+struct Limited(usize);
+impl std::fmt::Write for Limited {
+    fn write_str(&mut self, s: &str) -> std::fmt::Result {
+        if s.len() > self.0 {
+            self.0 = 0;
+            Err(std::fmt::Error)
+        } else {
+            self.0 -= s.len();
+            Ok(())
+        }
+    }
+}
+const SUIT_CH: [char; 4] = ['s', 'h', 'd', 'c'];
+
 fn rp_json(rp: &RankPair, w: f32) -> String {
     let (t, h, k) = match rp {
         RankPair::Pocket(x) => ("P", rank_id(x), rank_id(x)),
@@ -35,7 +50,20 @@ fn build(c: &Case) -> Option<HandRange> {
             v.extend(items.iter().map(|((a, b), w)| (pair(*b, *a), *w)));
             v.into_iter().collect::<HandRange>()
         }
-        _ => items.iter().map(|((a, b), w)| (pair(*a, *b), *w)).collect::<HandRange>(),
+        "cards" => {
+            // every combo written as a card-pair token, cards in either order (text from the harness' own tables), parsed
+            let parts: Vec<String> = items
+                .iter()
+                .map(|((a, b), w)| {
+                    let (x, y) = if (a * 5 + b) % 3 == 0 { (*a, *b) } else { (*b, *a) };
+                    let t = format!("{}{}{}{}", RANK_CH[x / 4], SUIT_CH[x % 4], RANK_CH[y / 4], SUIT_CH[y % 4]);
+                    if *w == 1.0 { t } else { format!("{}:{}", t, w) }
+                })
+                .collect();
+            parts.join(",").parse::<HandRange>().unwrap()
+        }
+        // CardPair::new is given the two cards in either order
+        _ => items.iter().map(|((a, b), w)| (if (a * 3 + b) % 2 == 1 { pair(*b, *a) } else { pair(*a, *b) }, *w)).collect::<HandRange>(),
     })
 }
 
@@ -46,6 +74,17 @@ fn observe(c: &Case) -> (String, String) {
         None => return ("[]".into(), "\"range\":[],\"fmtres\":\"panic\",\"text\":\"\",\"toks\":[],\"reparse\":\"na\",\"reparsed\":[],\"split\":\"na\",\"rps\":[],\"orph\":[]".into()),
     };
     let rj = range_json(&r);
+    // now and then the range is first formatted into a sink that fails after a few bytes: what a later to_string() returns
+    // must not depend on it
+    if (c.items.len() + c.ops.len()) % 4 == 1 {
+        let r0 = r.clone();
+        let room = 2 + c.items.len() % 9;
+        let _ = guarded(move || {
+            use std::fmt::Write;
+            let mut sink = Limited(room);
+            let _ = write!(sink, "{}", r0);
+        });
+    }
     let r1 = r.clone();
     let text = guarded(move || r1.to_string());
     let (fmtres, text) = match text {
@@ -380,6 +419,12 @@ pub fn record(args: &Args, mut out: Out) -> usize {
                 let mut it = items.clone();
                 rng.shuffle(&mut it);
                 cases.push(Case { items: it, via: if j % 3 == 2 { "insert" } else { "collect" }, ops: "[]".into(), text_in: None, reparse: true });
+            }
+            // and once more from a text that lists every combo as a card pair, cards in either order
+            if items.iter().all(|(_, w)| w.to_bits() & 0x8000_0000 == 0) {
+                let mut it = items.clone();
+                rng.shuffle(&mut it);
+                cases.push(Case { items: it, via: "cards", ops: "[]".into(), text_in: None, reparse: true });
             }
         }
     }
